@@ -24,6 +24,7 @@ META = dict(
 )
 META["text"] += ' (R6 = C02.R2) the plurality and super-majority assorters take values in [0, declared upper_bound], and the three places stating the super-majority bound agree.'
 META["text"] += ' (R7, N) Assorter and Assertion constructors store contest, upper_bound, assorter, margin and test unconditionally from the parameters of the same name.'
+META["text"] += ' (R8 = C07.R3) the threshold moves only while the contest is in progress.'
 
 SPEC_U = '''
 def spec(at, v, ua):
